@@ -10,21 +10,41 @@ Local Open Scope N_scope.
    timed out at any point, module error -, option setters, set_global,
    set_module_output, conversion to a block scanner, block scans/finishes,
    scans by other scanners of the thread), every effect the scans may have
-   had on the cells they can write, and every probe input: the evaluation of a
-   contiguous probe starts from the same visible state on the used scanner as
-   on a fresh scanner (fresh thread) that carries only what the API says
-   persists.  Visible = every persistent or transient cell the evaluation may
-   read (caches and scratch excluded).  The two guards exclude the recorded
-   findings: a module error while user-supplied outputs are pending, and a
-   user-supplied output for a module that owns a per-thread cache. *)
+   had on the cells they can write, and every probe input: the evaluation of
+   the probe (contiguous scan, or the first block of a block sequence after
+   the history's last sequence was finished) starts from the same visible
+   state on the used scanner as on a fresh scanner (fresh thread) that
+   carries only what the API says persists.  Visible = every persistent or
+   transient cell the evaluation may read (caches and scratch excluded).
+   For rules whose modules keep only scan-scoped per-thread caches. *)
+Theorem history_independence : forall R h i,
+  forallb wf_op h = true -> scoped_only R ->
+  (run R h fresh (CF blk_needs_reset) =? 0) = false ->
+  forall c, visible R (negb (spec_persist h CKind =? 0)) c = true ->
+    probe_of R h i (run R h fresh) c = probe_of R h i (spec_persist h) c.
+Proof. exact StateProofs.history_independence. Qed.
+Print Assumptions history_independence.
+
+(* any rules, contiguous probe: under the guard that excludes the recorded
+   finding (a user-supplied output for a module that owns a per-thread cache
+   which is not scan-scoped: pe, elf, macho, dex, crx, magic, cuckoo) *)
 Theorem history_independence_contiguous : forall R h i,
   forallb wf_op h = true ->
-  hist_ok fresh h = true ->
   tl_guard R (spec_persist h) ->
   forall c, visible R false c = true ->
     probe_contig R i (run R h fresh) c = probe_contig R i (spec_persist h) c.
 Proof. exact StateProofs.history_independence_contiguous. Qed.
 Print Assumptions history_independence_contiguous.
+
+(* any rules, block probe: every visible cell except those caches *)
+Theorem history_independence_block : forall R h i,
+  forallb wf_op h = true ->
+  (spec_persist h CKind =? 0) = false ->
+  (run R h fresh (CF blk_needs_reset) =? 0) = false ->
+  forall c, visible R true c = true -> block_leak c = false ->
+    probe_block R i (run R h fresh) c = probe_block R i (spec_persist h) c.
+Proof. exact StateProofs.history_independence_block. Qed.
+Print Assumptions history_independence_block.
 
 (* every transient cell has its creation-time value, or a value determined by
    the probe alone, when the evaluation of a contiguous scan starts *)
@@ -35,35 +55,17 @@ Theorem contiguous_prologue_establishes_transient_state : forall R i st,
 Proof. exact StateProofs.contig_prologue_establishes. Qed.
 Print Assumptions contiguous_prologue_establishes_transient_state.
 
-(* block mode: the same, for every visible cell except the four that leak
-   (filesize global, module fields of root_struct, per-thread module caches,
-   snippets of a sequence whose finish() failed) *)
-Theorem history_independence_block_patterns : forall R h i,
-  forallb wf_op h = true -> hist_ok fresh h = true ->
-  (run R h fresh (CF blk_needs_reset) =? 0) = false ->
-  forall c, visible R true c = true -> block_leak c = false ->
-    probe_block R i (run R h fresh) c = probe_block R i (spec_persist h) c.
-Proof. exact StateProofs.history_independence_block_patterns. Qed.
-Print Assumptions history_independence_block_patterns.
-
-(* the unrestricted statement is false on the current tree *)
+(* without the restriction on the rules the statement is still false: the
+   per-thread caches of modules that are not scan-scoped leak (witnesses
+   replayed on the implementation through the cuckoo module) *)
 Theorem history_independence_refuted : ~ history_independence_stmt.
 Proof. exact StateProofs.history_independence_refuted. Qed.
 Print Assumptions history_independence_refuted.
 
-(* the six witnesses (each names the history shape and the cell that leaks);
-   all are replayed on the implementation by the harness corpus *)
 Theorem history_independence_witnesses :
-  leaks [OScan 5 clean Complete; OIntoBlocks] 3 CGFilesize /\
-  leaks [OScan 5 clean Complete; OIntoBlocks] 3 CRootModules /\
-  leaks [OOther eff_tl; OIntoBlocks] 3 (CTL tl_hash_MD5_CACHE) /\
-  leaks [OOther eff_tl; OSetModuleOutput 4] 3 (CTL tl_hash_MD5_CACHE) /\
-  leaks [OSetModuleOutput 11; OScan 5 clean (ModErr 6)] 3 CRootModules /\
-  leaks [OIntoBlocks; OSetTimeout 1; OBlockScan 1 eff_snip Complete; OBlockFinish clean TimedOut] 3 (CF blk_snippets).
-Proof.
-  exact (conj leak_filesize (conj leak_module_fields (conj leak_tl_block (conj leak_tl_user_output
-         (conj leak_user_outputs_after_module_error leak_snippets))))).
-Qed.
+  leaks [OOther eff_tl; OIntoBlocks] 3 (CTL tl_pe_IMPHASH_CACHE) /\
+  leaks [OOther eff_tl; OSetModuleOutput 2] 3 (CTL tl_pe_IMPHASH_CACHE).
+Proof. exact (conj leak_tl_block leak_tl_user_output). Qed.
 Print Assumptions history_independence_witnesses.
 
 (* GENERATED fact used by the theorems: every module main function
@@ -71,4 +73,3 @@ Print Assumptions history_independence_witnesses.
 Theorem module_mains_clear_their_caches : forall t, tl_cleared_by_main t = true.
 Proof. exact StateProofs.all_tl_cleared. Qed.
 Print Assumptions module_mains_clear_their_caches.
-
